@@ -1,4 +1,19 @@
 import ChessVerif.Spec.Rules
+/-!
+# Board symmetries of the FIDE specification (lemmas for C17)
+
+A symmetry `T : Sym` is a pair of switches: `fr` = flip the ranks *and* swap the colours, `ff` = flip
+the files.  `T.sq`, `T.col`, `T.dir`, `T.mv`, `T.pos` are the induced maps on squares, colours, ray
+directions, moves and positions; `Sym.mirror = ⟨true,false⟩` and `Sym.flip = ⟨false,true⟩` are
+`Sq.mirror / Pos.mirror` and `Sq.flipFile / Pos.flipFiles` of `Spec/Rules.lean` (`mirror_pos`,
+`flip_pos`, ... at the end of the file).  Every notion of the specification is shown to commute with
+every `T` — once, for all four symmetries — under two side conditions that are stated where needed:
+
+* `T.Ok p`: if `T` flips the files then `p` has no castling rights (`NoCastle p`); castling is the
+  only left/right-asymmetric rule;
+* `UniqueKing p c`: at most one king of colour `c`.  `kingSq?` takes the *first* king in a1..h8 order,
+  so with two kings of one colour `inCheck` (and everything built on it) is not mirror-invariant.
+-/
 set_option maxRecDepth 100000
 namespace Chess
 
@@ -696,7 +711,7 @@ theorem legal_sym (T : Sym) (p : Pos) (hok : T.Ok p) (hu : UniqueKing p p.stm) (
   unfold legal
   rw [pseudoLegal_sym T p hok]
   cases hp : pseudoLegal p m with
-  | false => rfl
+  | false => simp only [Bool.false_and]
   | true =>
     rw [← apply_sym T p hok m (fun hf => pseudoLegal_not_castle (hok hf) hp), pos_stm,
       inCheck_sym T _ _ (uniqueKing_apply hu hp)]
@@ -836,7 +851,8 @@ theorem _root_.Chess.epValid_eq (p : Pos) : epValid p =
       p.has q .pawn p.stm.other && q.rank == p.stm.other.pawnRank + 2 * p.stm.other.fwd &&
       (match sq? q.file (q.rank - p.stm.other.fwd), sq? q.file p.stm.other.pawnRank with
        | some mid, some org => p.empty mid && p.empty org && !inCheck (epBack p q org) p.stm
-       | _, _ => false) := rfl
+       | _, _ => false) := by
+  unfold epValid epBack; rfl
 
 theorem epBack_sym (T : Sym) (p : Pos) (q org : Sq) : T.pos (epBack p q org) = epBack (T.pos p) (T.sq q) (T.sq org) := by
   apply Pos.ext'
@@ -951,7 +967,7 @@ theorem valid_sym (T : Sym) (p : Pos) (hok : T.Ok p) : Valid (T.pos p) = Valid p
   rw [Valid_eq, Valid_eq, ← all_colors_sym T (validSide (T.pos p))]
   simp only [validSide_sym T p hok, pawnsOk_sym]
   cases h : [Color.white, Color.black].all (validSide p) with
-  | false => rfl
+  | false => simp only [Bool.false_and]
   | true =>
     have hu := uniqueKing_of_validSide h
     rw [pos_stm, ← col_other, inCheck_sym T p _ (hu _), epValid_sym T p (hu _)]
@@ -987,6 +1003,14 @@ theorem norm_sym (T : Sym) (p : Pos) : T.pos (norm p) = norm (T.pos p) := by
 
 
 /-! ### the two symmetries of the specification file are instances -/
+/-- rank reflection of a ray direction: n↔s, ne↔se, nw↔sw -/
+def _root_.Chess.Dir.mirror : Dir → Dir
+  | .n => .s | .ne => .se | .e => .e | .se => .ne | .s => .n | .sw => .nw | .w => .w | .nw => .sw
+/-- file reflection of a ray direction: e↔w, ne↔nw, se↔sw -/
+def _root_.Chess.Dir.flipFile : Dir → Dir
+  | .n => .n | .ne => .nw | .e => .w | .se => .sw | .s => .s | .sw => .se | .w => .e | .nw => .ne
+theorem mirror_dir (u : Dir) : u.mirror = mirror.dir u := by cases u <;> rfl
+theorem flip_dir (u : Dir) : u.flipFile = flip.dir u := by cases u <;> rfl
 theorem mirror_sq (s : Sq) : s.mirror = mirror.sq s := rfl
 theorem flip_sq (s : Sq) : s.flipFile = flip.sq s := rfl
 theorem mirror_mv (m : Move) : m.mirror = mirror.mv m := rfl
